@@ -187,6 +187,19 @@ class Composer:
                 if last == "position":
                     return next((("Some", i) for i, h in enumerate(hits) if h), ("None",))
                 return any(hits) if last == "any" else all(hits)
+        # Option -> Result / Option -> value conversions of std
+        if base.endswith("Option::<T>::ok_or") and len(args) == 2:
+            v = self.absval(args[0], point, depth + 1)
+            if isinstance(v, tuple) and v and v[0] == "Some":
+                return ("Ok", v[1])
+            if v == ("None",):
+                return ("Err", None)
+        if (base.endswith("Result::<T, E>::ok") or base.endswith("Result<T, E>::ok")) and len(args) == 1:
+            v = self.absval(args[0], point, depth + 1)
+            if isinstance(v, tuple) and v and v[0] == "Ok":
+                return ("Some", v[1])
+            if isinstance(v, tuple) and v and v[0] == "Err":
+                return ("None",)
         if base.endswith("Option::<T>::is_some") or base.endswith("Option::<T>::is_none"):
             v = self.absval(args[0], point, depth + 1)
             if isinstance(v, tuple) and v and v[0] in ("Some", "None"):
